@@ -39,6 +39,12 @@ GLOBAL_REWRITES = [
     ('R5a', r'crate::Error::(\w+)\(\s*"[^"]*"\s*,?\s*\)', r'E::\1', 'error payload dropped, variant kept'),
     ('R5b', r'crate::Error::(\w+)\b', r'E::\1', 'error variant'),
     ('R8a', r'\|_\|', r'|_e|', 'closure parameter must be a variable in Verus'),
+    ('R8b', r'\.ok_or_else\(\s*\|\|\s*', r'.ok_or(', 'ok_or_else(|| e) == ok_or(e) for a pure error value'),
+    ('R5c', r'error!\(\s*CoreError::(\w+)\s*\)', r'E::Other', 'anchor error value: payload dropped (no contract depends on the variant)'),
+    ('R5d', r'\bCoreError::(\w+)\b', r'E::Other', 'anchor error value: payload dropped'),
+    ('R1c', r'gmsol_model::utils::apply_factor::<_,\s*\{\s*constants::MARKET_DECIMALS\s*\}>', 'apply_factor_p', 'monomorphisation at the program instance (u128, 20); primitive-typed glue'),
+    ('R1d', r'\bapply_factor::<_,\s*\{\s*constants::MARKET_DECIMALS\s*\}>', 'apply_factor_p', 'monomorphisation at the program instance (u128, 20)'),
+    ('R4c', r'\bconstants::MARKET_USD_UNIT\b', 'MARKET_USD_UNIT', 'MARKET_USD_UNIT = 10^20 (checked against /repo constant each run)'),
     ('R2a', r'\bSelf::Signed\b', 'S', 'monomorphisation: signed counterpart'),
     ('R2b', r'\bT::Signed\b', 'S', 'monomorphisation: signed counterpart'),
     ('R4a', r'\bFixedPointOps::UNIT\b', 'N::UNIT', 'UNIT constant of the instance'),
@@ -111,7 +117,70 @@ def _find_loops(body):
     return res
 
 
+REQUIRE_OPS = {'require_gte': '>=', 'require_gt': '>', 'require_eq': '==', 'require_neq': '!=',
+               'require_keys_eq': '==', 'require_keys_neq': '!='}
+
+
+def _split_top_commas(t):
+    parts, depth, cur = [], 0, ''
+    i = 0
+    while i < len(t):
+        j = extract._skip_trivia(t, i)
+        if j is not None:
+            cur += t[i:j]
+            i = j
+            continue
+        c = t[i]
+        if c in '([{':
+            depth += 1
+        elif c in ')]}':
+            depth -= 1
+        if c == ',' and depth == 0:
+            parts.append(cur.strip())
+            cur = ''
+        else:
+            cur += c
+        i += 1
+    if cur.strip():
+        parts.append(cur.strip())
+    return parts
+
+
+def rewrite_require_macros(body, unit, log):
+    """R6: anchor-lang 0.31.1 `require!(c, e)` == `if !(c) { return Err(e.into()) }`;
+    `require_gte!(a, b, e)` errors when `a < b`; `require_gt!` when `a <= b`; `require_eq!` when `a != b`;
+    `require_neq!` when `a == b`; `require_keys_eq!/neq!` likewise on Pubkeys."""
+    pat = re.compile(r'\b(require|require_gte|require_gt|require_eq|require_neq|require_keys_eq|require_keys_neq)!\s*\(')
+    out = ''
+    i = 0
+    n = 0
+    while True:
+        m = pat.search(body, i)
+        if not m:
+            out += body[i:]
+            break
+        out += body[i:m.start()]
+        op = m.group(1)
+        close = extract.match_brace(body, m.end() - 1, '(', ')')
+        args = _split_top_commas(body[m.end():close])
+        j = close + 1
+        if j < len(body) and body[j] == ';':
+            j += 1
+        if op == 'require':
+            cond, err = args[0], (args[1] if len(args) > 1 else 'E::Other')
+        else:
+            cond = f'({args[0]}) {REQUIRE_OPS[op]} ({args[1]})'
+            err = args[2] if len(args) > 2 else 'E::Other'
+        out += f'if !({cond}) {{ return Err({err}); }}'
+        i = j
+        n += 1
+    if n:
+        log.append(f'R6 x{n} in {unit["id"]} (anchor require*! macro expanded to if/return Err)')
+    return out
+
+
 def rewrite_body(body, unit, log):
+    body = rewrite_require_macros(body, unit, log)
     for rid, pat, rep, why in GLOBAL_REWRITES:
         cnt = len(re.findall(pat, body))
         if cnt:
@@ -185,6 +254,9 @@ def _parse_lines(lines, path, out):  # list of ('text', str) | ('prelude', width
         elif st.startswith('//@struct'):
             f, hdr, fields = [x.strip() for x in st[len('//@struct'):].split('::')]
             out.append(('struct', (f, hdr, [x.strip() for x in fields.split(',') if x.strip()])))
+        elif st.startswith('//@const'):
+            f, nm, exp = [x.strip() for x in st[len('//@const'):].split('::', 2)]
+            out.append(('const', (f, nm, exp)))
         elif st.startswith('//@unit'):
             u = dict(id=st.split()[1], subs=[], loops={}, inserts=[], within='', header=[])
             i += 1
@@ -195,6 +267,8 @@ def _parse_lines(lines, path, out):  # list of ('text', str) | ('prelude', width
                 if key in ('file', 'within', 'fn', 'sig'):
                     u[key] = val
                 elif key == 'sub':
+                    if val.endswith(' =>'):
+                        val += ' '
                     a, _, b = val.partition(' => ')
                     u['subs'].append((a, b))
                 elif key == 'loop':
@@ -259,6 +333,12 @@ def generate(template_path, repo, out_path):
             emit(instantiate_prelude(val))
         elif kind == 'text':
             out_lines.append(wsub(val))
+        elif kind == 'const':
+            f, nm, exp = val
+            ty, expr = extract.extract_const(repo, f, nm)
+            if extract.norm(f'{ty} = {expr}') != extract.norm(exp):
+                raise Undecided(f"constant drift (lost anchor): {nm} in {f} is `{ty} = {expr}`, contract written for `{exp}`")
+            log.append(f"R4 constant checked: {nm}: {ty} = {expr}")
         elif kind == 'struct':
             f, hdr, fields = val
             blk = extract.extract_block_text(repo, f, hdr)
